@@ -1,6 +1,6 @@
 (* Props_C02.v — C02: emission / direct-image spectra equal the documented layered thermal integral. *)
 From Coq Require Import Reals List Lra.
-From TV Require Import Num ListNum ListNumR Model_C01 Proofs_C01 Model_C02 Proofs_C02.
+From TV Require Import Num ListNum ListNumR Model_C01 Proofs_C01 Model_C02 Proofs_C02 Proofs_C02k.
 Import ListNotations.
 Local Open Scope R_scope.
 
@@ -52,3 +52,30 @@ Theorem C02_planck_increasing : forall (h c k wn T1 T2 : R),
   @planck R RTNum h c k wn T1 < @planck R RTNum h c k wn T2.
 Proof. exact planck_increasing. Qed.
 Print Assumptions C02_planck_increasing.
+
+(* ---- correlated-k opacity mode (evaluate_emission_ktables): kd[layer][g] is the molecular vertical optical depth of
+   each layer at each quadrature point of the k-distribution, ws the quadrature weights ---- *)
+(* (a') isothermal: exactly B(T)/pi at every angle, whatever the k-distribution *)
+Theorem C02_k_isothermal_intensity : forall (B d : list R) (kd : list (list R)) (ws : list R) (m B0 : R),
+  (0 < length d)%nat -> length kd = length d -> Forall (fun x => 0 <= x) ws -> Rsum ws = 1 ->
+  (forall l, @nth_d R RNum B l = B0) ->
+  @kintensity R RTNum B d kd ws m = B0.
+Proof. intros. apply k_isothermal_intensity; assumption. Qed.
+Print Assumptions C02_k_isothermal_intensity.
+
+(* (b') between the coldest and the hottest layer; this path has no saturation clamp, hence no exp(-10) slack *)
+Theorem C02_k_hot_cold_bounds : forall (B d : list R) (kd : list (list R)) (ws : list R) (m Bmin Bmax : R),
+  (0 < length d)%nat -> length kd = length d -> Forall (fun x => 0 <= x) ws -> Rsum ws = 1 ->
+  nonneg_list d -> Forall nonneg_list kd -> 0 <= m ->
+  (forall l, (l < length d)%nat -> Bmin <= @nth_d R RNum B l <= Bmax) ->
+  Bmin <= @kintensity R RTNum B d kd ws m <= Bmax.
+Proof. intros. apply k_hot_cold_bounds; assumption. Qed.
+Print Assumptions C02_k_hot_cold_bounds.
+
+(* the surface term as coded (molecular depth through contribute() = -log of the mixture, added to the other sources,
+   then exponentiated) is the product form the model executes *)
+Theorem C02_k_surface_as_coded : forall (d : list R) (kd : list (list R)) (ws : list R) (m : R),
+  Forall (fun x => 0 <= x) ws -> Rsum ws = 1 ->
+  @ksurface_coded R RTNum d kd ws m = @ksurface R RTNum d kd ws m.
+Proof. intros. apply ksurface_as_coded; assumption. Qed.
+Print Assumptions C02_k_surface_as_coded.
